@@ -148,6 +148,12 @@ func checkC19(c c19Case) string {
 			astisub.Now = restore
 		}
 	}
+	// 2c. dates the metadata does not supply are those of the injectable clock
+	if b := ref["stl"]; len(b) >= 1024 && !bytes.HasPrefix(b, []byte("ERR:")) && !(c.Spec.Meta.STL != nil && c.Spec.Meta.STLDates && !c.Spec.Meta.Nil) {
+		if want := c19NowA.Format("060102"); string(b[224:230]) != want || string(b[230:236]) != want {
+			return fmt.Sprintf("stl creation / revision dates are %q / %q, the injectable clock says %q (metadata present: %v, supplies dates: %v)", b[224:230], b[230:236], want, !c.Spec.Meta.Nil, c.Spec.Meta.STL != nil && c.Spec.Meta.STLDates)
+		}
+	}
 	// 3. the clock: only the STL dates may depend on it, and only when the metadata does not supply them
 	other, msg := writeAllAt(c.Spec.build(), c19NowB, nil)
 	if msg != "" {
